@@ -1035,6 +1035,33 @@ impl<'forest, I: Interner> SolveState<'forest, I> {
         if let Some(answer) = self.forest.tables[subgoal_table].answer(answer_index) {
             info!("answer cached = {:?}", answer);
 
+            // An answer that still has delayed subgoals says nothing to a
+            // negative literal. The tables they refer to were all created
+            // below this (negative) subgoal, so they can be evaluated now, by
+            // a refinement strand; meanwhile look at the next answer.
+            let selected_subgoal = canonical_strand.value.selected_subgoal.as_ref().unwrap();
+            if let Literal::Negative(_) =
+                canonical_strand.value.ex_clause.subgoals[selected_subgoal.subgoal_index]
+            {
+                if !answer.subst.value.delayed_subgoals.is_empty() {
+                    if self.forest.tables[subgoal_table].mark_refined(answer_index) {
+                        let answer = self.forest.answer(subgoal_table, answer_index);
+                        if let Some(strand) = self.create_refinement_strand(subgoal_table, answer) {
+                            self.forest.tables[subgoal_table].enqueue_strand(strand);
+                        }
+                    }
+                    canonical_strand
+                        .value
+                        .selected_subgoal
+                        .as_mut()
+                        .unwrap()
+                        .answer_index
+                        .increment();
+                    self.stack.top().active_strand = Some(canonical_strand);
+                    return Ok(());
+                }
+            }
+
             // There was a previous answer available for this table
             // We need to check if we can merge it into the current `Strand`.
             let num_universes = self.forest.tables[self.stack.top().table]
